@@ -258,8 +258,17 @@ class Body:
         return ("other", rv.get("dbg", k))
 
     # ---------------------------------------------------------------- iteration helpers
+    def _live(self):
+        """blocks reachable through normal (non-unwind) edges; unwind/cleanup code is not analysed"""
+        if getattr(self, "_live_set", None) is None:
+            self._live_set = self.reachable_blocks() if not self.light else set(range(len(self.blocks)))
+        return self._live_set
+
     def terms(self, kind=None):
+        live = self._live()
         for bi, b in enumerate(self.blocks):
+            if bi not in live:
+                continue
             t = b["term"]
             if kind is None or t["k"] == kind:
                 yield bi, t
@@ -275,7 +284,10 @@ class Body:
                 yield bi, t, None, None
 
     def stmts(self):
+        live = self._live()
         for bi, b in enumerate(self.blocks):
+            if bi not in live:
+                continue
             for si, s in enumerate(b["stmts"]):
                 yield bi, si, s
 
